@@ -93,6 +93,57 @@ def _msp_storage(fn, path):
     raise TieBroken("%s:%d: storage offset uses %s, neither element nor position" % (path, line, var))
 
 
+def _mentions(node, names):
+    return any(isinstance(n, ast.Name) and n.id in names for n in ast.walk(node))
+
+
+def _is_cmp(test, op, a, b):
+    return (isinstance(test, ast.Compare) and len(test.ops) == 1 and isinstance(test.ops[0], op)
+            and isinstance(test.left, ast.Name) and len(test.comparators) == 1
+            and isinstance(test.comparators[0], ast.Name)
+            and {test.left.id, test.comparators[0].id} == {a, b})
+
+
+def _reuse_guards(tree, path):
+    """Under which condition does each make_* evaluator reuse the trial-side transforms / maps on the test side?
+    Recognised: `if dual_to_range == domain: <reuse> else: <recompute for dual_to_range>` and
+    `if domain != dual_to_range: <recompute for dual_to_range>`; evaluators without any branch on the two spaces
+    compute both sides separately.  A guard on anything else (e.g. the grids) fails closed."""
+    out = {}
+    for name in ("make_default_scalar", "make_scalar_hypersingular", "make_maxwell_electric_field_boundary",
+                 "make_maxwell_magnetic_field_boundary"):
+        fn = _func(tree, name, path)
+        guards = []
+        for n in ast.walk(fn):
+            if isinstance(n, ast.If) and _mentions(n.test, ("domain", "dual_to_range")):
+                if _is_cmp(n.test, ast.Eq, "domain", "dual_to_range"):
+                    if not n.orelse or not _mentions(ast.Module(body=n.orelse, type_ignores=[]), ("dual_to_range",)):
+                        raise TieBroken("%s:%d: %s reuses trial-side maps without recomputing them for dual_to_range in "
+                                        "the else branch" % (path, n.lineno, name))
+                    guards.append(("space_eq", n.lineno))
+                elif _is_cmp(n.test, ast.NotEq, "domain", "dual_to_range"):
+                    if not _mentions(ast.Module(body=n.body, type_ignores=[]), ("dual_to_range",)):
+                        raise TieBroken("%s:%d: %s: branch on domain != dual_to_range does not recompute for "
+                                        "dual_to_range" % (path, n.lineno, name))
+                    guards.append(("space_eq", n.lineno))
+                else:
+                    raise TieBroken("%s:%d: %s decides about reusing trial-side transforms with a condition other than "
+                                    "equality of the two spaces: %s" % (path, n.lineno, name, ast.unparse(n.test)))
+        out[name] = guards
+    if not out["make_scalar_hypersingular"] or not out["make_maxwell_electric_field_boundary"] \
+            or not out["make_maxwell_magnetic_field_boundary"]:
+        raise TieBroken("%s: expected a space-equality guard in the hypersingular and Maxwell evaluators: %r" % (path, out))
+    if out["make_default_scalar"]:
+        raise TieBroken("%s: make_default_scalar is expected to build both maps unconditionally" % path)
+    # both maps of make_default_scalar / the normal part of the hypersingular come from their own space
+    for name in ("make_default_scalar", "make_scalar_hypersingular"):
+        fn = _func(tree, name, path)
+        src = ast.unparse(fn)
+        if "source_map = domain.map_to_points(" not in src or "target_map = dual_to_range.map_to_points(" not in src:
+            raise TieBroken("%s: %s does not build source_map from domain and target_map from dual_to_range" % (path, name))
+    return out
+
+
 def fmm_indexing(ctx):
     pf = "bempp_cl/api/fmm/fmm_assembler.py"
     ps = "bempp_cl/api/space/space.py"
@@ -107,6 +158,7 @@ def fmm_indexing(ctx):
         raise TieBroken("%s: the three transforms index their points differently: %r (the model has one flag)"
                         % (pf, res))
     by_pos = flags.pop()
+    guards = _reuse_guards(tf, pf)
     by_elem, line = _msp_storage(_func(ts, "map_space_to_points_impl", ps), ps)
     text = "\n".join([
         "(* GENERATED by translators/fmm_indexing.py from %s and %s - do not edit *)" % (pf, ps),
@@ -115,6 +167,11 @@ def fmm_indexing(ctx):
                                            for k, v in sorted(res.items())),
         "(* map_space_to_points_impl line %d -> storage by %s *)" % (line, "element number" if by_elem else "position"),
         "Definition current_version : fmm_version := mk_version %s %s." % (str(by_pos).lower(), str(by_elem).lower()),
+        "(* reuse of trial-side transforms on the test side: %s *)" % "; ".join(
+            "%s: %s" % (k, ", ".join("space equality (line %d)" % g[1] for g in v) or "never (both sides built)")
+            for k, v in sorted(guards.items())),
+        "Definition reuse_guard_is_space_equality : bool := true.",
         ""])
     ctx.write_gen("FmmIndexing.v", text)
-    return {"transform_by_position": by_pos, "msp_store_by_element": by_elem}
+    return {"transform_by_position": by_pos, "msp_store_by_element": by_elem,
+            "reuse_guards": {k: [g[0] for g in v] for k, v in guards.items()}}
